@@ -8,6 +8,15 @@ CLAIMED = {
  "C03": ("locks", "lockset dataflow + condition-variable discipline over clang CFGs",
          "Every path of every production function: lost-wake-up freedom for the writer's wait (each store to a field its predicate reads is ordered with the check by the channel lock or followed by a lock hand-off before the notify), notify on every path of the release operations, re-check loop. Structural necessary conditions of C03 for all schedules; ring arithmetic (bounded draining) not decided.",
          "trusts pthread_cond_wait's atomic release; lock/field identity by (record, field path); constructors/destructors single-threaded", "3.2, 4/C03"),
+ "C05": ("tables+congr", "compile-time witnesses + congruence abstract domain + def-use and sibling rules over clang CFGs",
+         "_Static_assert witnesses on struct VideoFrame compiled against the real headers; at every frame producer the reserved size is 0 mod 8 (congruence domain through helpers), equals header + bytes_of_image(shape), is the value stored in the size field, and the shape stored is the one that sized it / the camera filled; every consumer steps by the size field only; bytes_of_type covers every SampleType. Necessary conditions; packet boundaries (ring arithmetic) not decided.",
+         "camera shape constant between query and frame (run-time); C01 for packet boundaries", "3.5, 3.7, 4/C05"),
+ "C12": ("exc+tables", "exception-escape summaries (greatest fixpoint over lexical try/throw structure) + resolved-callee / folded-constant rules + sibling tables + must-pass cleanup",
+         "No exception can leave a C entry point of the device manager; selection uses whole-string case-insensitive regex_match with empty-pattern short-circuit, kind filter and first-hit order; driver_id equals the driver slot index on every iteration; describe/open/close/constructor tables partition BasicDeviceKind identically and completely; driver_load releases library and loader on every failure exit. Regex semantics for all strings not decided.",
+         "allocation failure out of scope; C functions cannot throw; standard library regex trusted", "3.5, 3.6, 4/C12"),
+ "C13": ("own", "ownership dataflow over clang CFGs: shallow-copy aliasing, field coverage, free-then-clear, must-pass stores",
+         "Owning fields from the record layout are saved/restored across the whole-object overwrite; every string member and dimension element deep-copied from the same source member on every success path; destroy releases every owning field and clears it; copy_string stores length and terminating NUL on every success path, marks fresh buffers owned, never writes the source. Content equality and dst==src not decided.",
+         "allocation failure out of scope; dst and src distinct", "3.4, 4/C13"),
  "C11": ("tsim", "typestate / property simulation (abstract interpretation over finite domains) of the HAL wrappers against an abstract driver",
          "Exhaustive over the abstraction: after open, every finite sequence of the public camera/storage wrappers, each driver slot returning every enumerator of its return type, explored to a fixpoint of (device state x started x closed). Asserts no stop/get_frame/append without a successful start, one close per open, no access to a released device, HAL state follows the driver's answer; every slot NULL-checked at open.",
          "sequential protocol (one thread per device); a closed handle is not reused; integers other than constants are unknown", "3.3, 4/C11"),
